@@ -21,7 +21,22 @@ structured fields (16) and every subset of <= 3 (quick) / <= 4 (thorough) of
 PdiffIndex's 14 fields, plus random larger subsets, x {text, build} x several
 random fillings (1..4 records, rarely more; sizes 1..18 digits; hostile
 whitespace-free tokens), plus a purely random stream.
+
+Histories (one object, several dumps): a case may carry ``ops`` - a list of
+public-API mutations interleaved with 2..4 dumps.  After EVERY dump the same
+three judgements are made against the record model as it stands at that moment
+(dump returns; size column obeys the width rule of the CURRENT
+size_field_behavior and the CURRENT records; the text re-parses to the CURRENT
+records).  Mutations: Release.size_field_behavior switched (attribute or
+``set_size_field_behavior``); a structured field re-assigned with a new record
+list (longer / shorter sizes); an absent one added; a present one deleted
+(``del`` / ``pop``); the list object returned by ``obj[field]`` edited in place
+(append / insert / pop a record, change a record's size or another sub-field).
+PdiffIndex additionally gets SHA*-Current given as a list of >= 2 records whose
+sizes differ in length, and parsed Indexes whose History / Patches / Download
+fields carry their only record on the field line.
 """
+import copy
 import io
 import itertools
 import random
@@ -62,6 +77,8 @@ PD_MAXK = {'quick': 3, 'thorough': 4}          # PdiffIndex: all subsets up to t
 PD_REPS = {'quick': 2, 'thorough': 6}
 PD_RANDOM = {'quick': 300, 'thorough': 2000}   # ... plus this many random larger subsets
 RANDOM = {'quick': 12000, 'thorough': 600000}   # free random stream
+PD_EXTRA = {'quick': 1200, 'thorough': 40000}   # PdiffIndex Current-as-list / single-line 3-column cases
+HIST = {'quick': 6000, 'thorough': 200000}      # histories (one object, 2..4 dumps with mutations between)
 
 # ~50% of what the unrepaired tree measures (there a third of the dumps raise, so M.reparse / M.align are
 # at their lowest; a tree where dump() works measures more)
@@ -170,9 +187,47 @@ def sign(text):
             '\n-----BEGIN PGP SIGNATURE-----\n\niQIzBAEBCgAdFiEEexample\n=AbCd\n-----END PGP SIGNATURE-----\n')
 
 
-def gen_case(r, clsname, behavior, subset, mode, big=False):
+def size_of_len(r, n):
+    """A plain decimal size token of exactly n characters."""
+    n = max(1, n)
+    return r.choice('123456789') + ''.join(r.choice('0123456789') for _ in range(n - 1))
+
+
+def mix_size_lengths(r, recs):
+    """Make the size tokens of >= 2 records differ in length (in place)."""
+    lens = r.sample([1, 2, 3, 4, 5, 6, 7, 8, 9, 10, 12, 15, 16, 17, 18], len(recs)) if len(recs) <= 15 else None
+    if lens is None:
+        return
+    for rec, n in zip(recs, lens):
+        rec[1] = size_of_len(r, n)
+
+
+PD_CURRENT = ('sha1-current', 'sha256-current')
+
+
+def pd_is_3col(f):
+    return f.endswith(('-history', '-patches', '-download'))
+
+
+def gen_case(r, clsname, behavior, subset, mode, big=False, tweak=None):
+    """tweak (PdiffIndex only): 'pd-current-list' forces SHA*-Current present as >= 2 records with sizes of
+    different lengths; 'pd-single3' forces text mode with 1..3 History/Patches/Download fields whose only
+    record sits on the field line."""
     table = mv.DOC[clsname]
     present = list(subset)
+    force_single, mixed = set(), set()
+    if tweak == 'pd-current-list':
+        for f in r.sample(PD_CURRENT, r.choice([1, 2])):
+            if f not in present:
+                present.append(f)
+            mixed.add(f)
+    elif tweak == 'pd-single3':
+        mode = 'text'
+        three = [f for f in sorted(table) if pd_is_3col(f)]
+        for f in r.sample(three, r.randint(1, 3)):
+            if f not in present:
+                present.append(f)
+            force_single.add(f)
     if r.random() < 0.5:
         r.shuffle(present)
     counts = {}
@@ -180,12 +235,20 @@ def gen_case(r, clsname, behavior, subset, mode, big=False):
         counts[f] = r.choice([1, 2, 2, 3, 4])
         if big and r.random() < 0.1:
             counts[f] = r.randint(5, 12)
+        if f in mixed:
+            counts[f] = r.choice([2, 2, 3, 4])
+        if f in force_single:
+            counts[f] = 1
     if present and r.random() < 0.85 and max(counts.values()) < 2:
-        counts[r.choice(present)] = r.randint(2, 4)
+        f = r.choice(present)
+        if f not in force_single:
+            counts[f] = r.randint(2, 4)
     items = []
     expect = {}
     for f in present:
         recs = gen_records(r, table[f], counts[f])
+        if f in mixed:
+            mix_size_lengths(r, recs)
         expect[f] = recs
         items.append([spell(r, f), 'records', f, recs])
     plain = r.sample(mv.PLAIN[clsname], r.randint(1, min(3, len(mv.PLAIN[clsname]))))
@@ -195,7 +258,7 @@ def gen_case(r, clsname, behavior, subset, mode, big=False):
     if mode == 'text':
         forms = {}
         for f in present:
-            forms[f] = 'single' if (counts[f] == 1 and r.random() < 0.5) else 'multi'
+            forms[f] = 'single' if (counts[f] == 1 and (r.random() < 0.5 or f in force_single)) else 'multi'
         text = render_text(r, items, forms)
         inputs = ['str', 'str', 'bytes', 'lines', 'lines_nonl', 'file', 'bfile']
         if clsname in ('Dsc', 'Changes', 'BuildInfo'):
@@ -215,6 +278,181 @@ def gen_case(r, clsname, behavior, subset, mode, big=False):
         case['int_sizes'] = r.random() < 0.25
     case['dump_via'] = r.choice(['str', 'str', 'str', 'fd_bytes', 'fd_text'])
     return case
+
+
+# ---------------------------------------------------------------------------
+# histories: the record model as a mutable state, shared by generator and oracle
+
+VIAS = ['str', 'str', 'str', 'fd_bytes', 'fd_text']
+BEHAVIORS = ('apt-ftparchive', 'dak')
+
+
+def initial_state(case):
+    """Model state of a freshly parsed / built object: records per present field, the form in which the
+    library holds the field ('single' = one mapping, parsed from a record on the field line; 'list'),
+    and the current size_field_behavior."""
+    if case['mode'] == 'text':
+        recs = copy.deepcopy(case['expect'])
+        form = dict((f, 'single' if v == 'single' else 'list') for f, v in case['forms'].items())
+    else:
+        recs, form = {}, {}
+        for it in case['items']:
+            if it[1] == 'records':
+                recs[it[2]] = copy.deepcopy(it[3])
+                form[it[2]] = 'list'
+    return {'recs': recs, 'form': form, 'behavior': case['behavior']}
+
+
+def model_apply(state, op, table):
+    """Effect of one mutation on the record model."""
+    k = op[0]
+    if k == 'behavior':
+        state['behavior'] = op[1]
+    elif k == 'assign':
+        state['recs'][op[2]] = [list(x) for x in op[3]]
+        state['form'][op[2]] = 'list'
+    elif k == 'delete':
+        del state['recs'][op[2]]
+        del state['form'][op[2]]
+    elif k == 'append':
+        state['recs'][op[2]].append(list(op[3]))
+    elif k == 'insert':
+        state['recs'][op[2]].insert(op[3], list(op[4]))
+    elif k == 'pop':
+        state['recs'][op[2]].pop(op[3])
+    elif k == 'set':
+        state['recs'][op[2]][op[3]][table[op[2]].index(op[4])] = op[5]
+    else:
+        raise ValueError('unknown history op %r' % (op,))
+
+
+def op_kind(op, state):
+    """Counter name of a mutation, decided BEFORE it is applied to the model."""
+    if op[0] == 'assign':
+        return 'reassign' if op[2] in state['recs'] else 'add-absent'
+    if op[0] == 'set':
+        return 'set-size' if op[4] == 'size' else 'set-token'
+    return op[0]
+
+
+def _maxlen(recs):
+    return max(len(x[1]) for x in recs)
+
+
+def gen_new_size(r, recs, bias):
+    """A size token that is longer than every size of `recs` ('longer'), shorter than the longest
+    ('shorter'), or unrelated."""
+    cur = _maxlen(recs) if recs else 1
+    if bias == 'longer':
+        return size_of_len(r, min(cur + r.choice([1, 1, 2, 3, 5]), 24))
+    if bias == 'shorter' and cur > 1:
+        return size_of_len(r, r.randint(1, cur - 1))
+    if r.random() < 0.5:
+        return size_of_len(r, r.choice([14, 15, 16, 16, 17, 18]))        # around the fixed width
+    return gen_size(r)
+
+
+def gen_mutation(r, clsname, state):
+    table = mv.DOC[clsname]
+    present = sorted(state['recs'])
+    absent = [f for f in sorted(table) if f not in state['recs']]
+    lists = [f for f in present if state['form'][f] == 'list']
+    poppable = [f for f in lists if len(state['recs'][f]) >= 2]
+    menu = []
+    if clsname == 'Release':
+        menu += ['behavior'] * 5
+    if present:
+        menu += ['reassign'] * 3 + ['delete'] * 2 + ['set-size'] * 3 + ['set-token']
+    if absent:
+        menu += ['add-absent'] * 2
+    if lists:
+        menu += ['append'] * 3 + ['insert']
+    if poppable:
+        menu += ['pop'] * 3
+    kind = r.choice(menu)
+    rectype = r.choice(['dict', 'dict', 'deb822dict'])
+    as_int = r.random() < 0.25
+    if kind == 'behavior':
+        other = [b for b in BEHAVIORS if b != state['behavior']]
+        to = other[0] if r.random() < 0.9 else state['behavior']
+        return ['behavior', to, r.choice(['attr', 'attr', 'setter'])]
+    if kind in ('reassign', 'add-absent'):
+        f = r.choice(present if kind == 'reassign' else absent)
+        n = r.choice([1, 2, 2, 3, 4])
+        recs = gen_records(r, table[f], n)
+        old = state['recs'].get(f, [])
+        bias = r.choice(['longer', 'shorter', 'mixed', 'random'])
+        if bias == 'longer' and old:
+            recs[r.randrange(n)][1] = gen_new_size(r, old, 'longer')
+        elif bias == 'shorter' and old and _maxlen(old) > 1:
+            for rec in recs:
+                rec[1] = gen_new_size(r, old, 'shorter')
+        elif bias == 'mixed' and n >= 2:
+            mix_size_lengths(r, recs)
+        return ['assign', spell(r, f), f, recs, rectype, as_int]
+    if kind == 'delete':
+        f = r.choice(present)
+        return ['delete', spell(r, f), f, r.choice(['del', 'del', 'pop'])]
+    if kind in ('append', 'insert'):
+        f = r.choice(lists)
+        rec = gen_records(r, table[f], 1)[0]
+        rec[1] = gen_new_size(r, state['recs'][f], r.choice(['longer', 'longer', 'shorter', 'random']))
+        if kind == 'append':
+            return ['append', spell(r, f), f, rec, rectype, as_int]
+        return ['insert', spell(r, f), f, r.randint(0, len(state['recs'][f])), rec, rectype, as_int]
+    if kind == 'pop':
+        f = r.choice(poppable)
+        recs = state['recs'][f]
+        longest = [i for i, x in enumerate(recs) if len(x[1]) == _maxlen(recs)]
+        idx = r.choice(longest) if r.random() < 0.6 else r.randrange(len(recs))
+        return ['pop', spell(r, f), f, idx]
+    f = r.choice(present)
+    recs = state['recs'][f]
+    if kind == 'set-size':
+        longest = [i for i, x in enumerate(recs) if len(x[1]) == _maxlen(recs)]
+        k = r.random()
+        if k < 0.45:
+            idx, tok = r.randrange(len(recs)), gen_new_size(r, recs, 'longer')
+        elif k < 0.85:
+            idx, tok = r.choice(longest), gen_new_size(r, recs, 'shorter')
+        else:
+            idx, tok = r.randrange(len(recs)), gen_new_size(r, recs, 'random')
+        return ['set', spell(r, f), f, idx, 'size', tok, as_int]
+    subs = [x for x in table[f] if x != 'size']
+    sub = r.choice(subs)
+    return ['set', spell(r, f), f, r.randrange(len(recs)), sub, gen_token(r, sub), False]
+
+
+def gen_history(r, clsname, behavior):
+    """One object, 2..4 dumps, 0..3 public-API mutations before each dump."""
+    table = mv.DOC[clsname]
+    fields = sorted(table)
+    p = r.choice([0.2, 0.5, 0.5, 0.8, 1.0])
+    sub = [f for f in fields if r.random() < p]
+    tweak = None
+    if clsname == 'PdiffIndex':
+        tweak = r.choice([None, None, 'pd-current-list', 'pd-single3'])
+    case = gen_case(r, clsname, behavior, sub, r.choice(['text', 'build']), tweak=tweak)
+    del case['dump_via']
+    state = initial_state(case)
+    ops = []
+    ndumps = r.choice([2, 2, 3, 3, 4])
+    for d in range(ndumps):
+        if d == 0:
+            nmut = 1 if r.random() < 0.3 else 0
+        else:
+            nmut = 0 if r.random() < 0.06 else r.choice([1, 1, 1, 2, 2, 3])
+        for _ in range(nmut):
+            op = gen_mutation(r, clsname, state)
+            model_apply(state, op, table)
+            ops.append(op)
+        ops.append(['dump', r.choice(VIAS)])
+    case['ops'] = ops
+    return case
+
+
+HIST_CONFIGS = ([('Release', 'apt-ftparchive')] * 3 + [('Release', 'dak')] * 3 + [('PdiffIndex', None)] * 4 +
+                [('Dsc', None), ('Changes', None), ('BuildInfo', None)])
 
 
 def enumerated(seed, tier):
@@ -265,6 +503,20 @@ def cases(ctx):
         p = r.choice([0.15, 0.5, 0.5, 0.85])
         sub = [f for f in fields if r.random() < p]
         yield gen_case(r, clsname, behavior, sub, r.choice(['text', 'build']), big=True)
+    # PdiffIndex: SHA*-Current as a list of records with sizes of different lengths; parsed Index whose
+    # History / Patches / Download fields carry their only record on the field line (single dump)
+    r = ctx.rng('pd-extra')
+    fields = sorted(mv.DOC['PdiffIndex'])
+    for i in range(ctx.size(PD_EXTRA['quick'], PD_EXTRA['thorough'])):
+        p = r.choice([0.0, 0.15, 0.5, 0.85])
+        sub = [f for f in fields if r.random() < p]
+        yield gen_case(r, 'PdiffIndex', None, sub, r.choice(['text', 'build']),
+                       tweak=('pd-current-list', 'pd-single3')[i % 2])
+    # histories: one object, several dumps
+    r = ctx.rng('history')
+    for i in range(ctx.size(HIST['quick'], HIST['thorough'])):
+        clsname, behavior = HIST_CONFIGS[i % len(HIST_CONFIGS)]
+        yield gen_history(r, clsname, behavior)
 
 
 # ---------------------------------------------------------------------------
